@@ -1,0 +1,58 @@
+//go:build verif
+// +build verif
+
+package xmpp
+
+// Exports for the external verification harness (/verif). This file is only
+// compiled with the "verif" build tag; with the tag off the package is unchanged.
+// Every function is a thin forwarder to unexported code, so that the harness, which
+// lives in another module, exercises exactly the code the library itself runs.
+
+import (
+	"time"
+
+	"gosrc.io/xmpp/stanza"
+)
+
+// VerifRoute forwards to Router.route.
+func VerifRoute(r *Router, s Sender, p stanza.Packet) { r.route(s, p) }
+
+// VerifBackoff wraps the unexported backoff structure.
+type VerifBackoff struct{ b backoff }
+
+func NewVerifBackoff(noJitter bool, base, factor, cap int) *VerifBackoff {
+	return &VerifBackoff{b: backoff{NoJitter: noJitter, Base: base, Factor: factor, Cap: cap}}
+}
+func (v *VerifBackoff) Duration() time.Duration { return v.b.duration() }
+func (v *VerifBackoff) DurationForAttempt(n int) time.Duration {
+	return v.b.durationForAttempt(n)
+}
+func (v *VerifBackoff) Reset() { v.b.reset() }
+
+// VerifKeepalive forwards to keepalive.
+func VerifKeepalive(t Transport, interval time.Duration, quit <-chan struct{}) {
+	keepalive(t, interval, quit)
+}
+
+// VerifEnsurePort forwards to ensurePort.
+func VerifEnsurePort(addr string, port int) string { return ensurePort(addr, port) }
+
+// Transport / session injection, so that a stub Transport can stand in for the socket.
+func VerifSetTransport(c *Client, t Transport)             { c.transport = t }
+func VerifGetTransport(c *Client) Transport                { return c.transport }
+func VerifSetComponentTransport(c *Component, t Transport) { c.transport = t }
+func VerifGetComponentTransport(c *Component) Transport    { return c.transport }
+func VerifSetSession(c *Client, s *Session)                { c.Session = s }
+func VerifNewSession(t Transport) *Session                 { return &Session{transport: t} }
+func VerifRecv(c *Client, keepaliveQuit chan<- struct{})   { c.recv(keepaliveQuit) }
+func VerifComponentRecv(c *Component)                      { c.recv() }
+func VerifRouter(c *Client) *Router                        { return c.router }
+
+// VerifSetResume sets the unexported Config.streamManagementResume.
+func VerifSetResume(cfg *Config, b bool) { cfg.streamManagementResume = b }
+
+// VerifState returns the current connection state of an EventManager.
+func VerifState(em *EventManager) ConnState { return em.CurrentState.getState() }
+
+// VerifEventState extracts the state carried by an Event.
+func VerifEventState(e Event) ConnState { return e.State.state }
